@@ -31,7 +31,7 @@ func init() {
 		Word32: true,
 		Level:  "exploration",
 		Rule: "E1 bounded-exhaustive enumeration in two builds: (a) complete: every level mask of height ≤H × every node of the tree (all 2^(h+1)-1 paths), PathToIndexLoose on every node and PathToIndex on every node of a stored level, oracle = explicit recursive pre-order walk numbering stored nodes; " +
-			"(b) tall: for every height ≤30 a mask family (full, leaf-only, one level missing, one or two extra levels stored, two alternating patterns, every combination of the five lowest levels and of the five levels right below the top) × a path family per length (all-0, all-1, alternating, single-1 and single-0 at every position), oracle = closed form (stored ancestors + stored size of skipped left subtrees) which is itself cross-checked against the walk on every case of (a). " +
+			"(b) tall: for every height ≤30 a mask family (full, leaf-only, one or two levels missing, one or two extra levels stored, every run of stored levels a..b below the top and its complement, alternating / every third / every fourth level, every combination of the five lowest levels and of the five levels right below the top) × a path family per length (all-0, all-1, alternating, single-1 and single-0 at every position), oracle = closed form (stored ancestors + stored size of skipped left subtrees) which is itself cross-checked against the walk on every case of (a). " +
 			"The same enumeration is executed by a second binary built with -tags debug (contracts active), with a smaller complete bound. A case is one (mask, node, function, build); non-trivial when the mask is neither full nor leaf-only and the node is not the root.",
 		Assumptions: []string{
 			"complete only below the height bound; tall trees are covered on the mask/path families",
@@ -89,8 +89,19 @@ func c03MaskFamily(h int) []int32 {
 			add(top | 1<<uint(j) | 1<<uint(k))
 		}
 	}
+	// two levels missing; a RUN of stored levels a..b below the top (and its complement)
+	for j := 0; j < h; j++ {
+		for k := j + 1; k < h; k++ {
+			add(full &^ (1<<uint(j) | 1<<uint(k)))
+			run := (int64(1)<<uint(k+1) - 1) &^ (int64(1)<<uint(j) - 1)
+			add(top | run)
+			add(top | (full &^ run))
+		}
+	}
 	add(top | full&0x55555555)
 	add(top | full&0x2aaaaaaa)
+	add(top | full&0x49249249) // every third level
+	add(top | full&0x11111111) // every fourth
 	// every combination of the five lowest levels, and of the five levels right below the top
 	for k := int64(0); k < 32; k++ {
 		add(top | k)
